@@ -9,6 +9,7 @@ import (
 	"strings"
 	"time"
 	"unicode/utf8"
+	"verif/corpus"
 
 	zlint "github.com/zmap/zlint/v3"
 	"github.com/zmap/zlint/v3/formattedoutput"
@@ -410,7 +411,8 @@ func init() {
 func c14Solo(c *mon.Ctx) {
 	g := lint.GlobalRegistry()
 	added := map[string]lint.LintMetadata{}
-	check := func(when string) {
+	var check func(when string)
+	check = func(when string) {
 		var buf bytes.Buffer
 		g.WriteJSON(&buf)
 		names := map[string]int{}
@@ -442,6 +444,31 @@ func c14Solo(c *mon.Ctx) {
 			if names[n] != 1 {
 				c.V("listing-missing|"+when, fmt.Sprintf("%s: lint %s appears %d times in the listing", when, n, names[n]), n, nil, nil)
 			}
+		}
+	}
+	// result sets produced BEFORE the additions are kept and encoded again AFTER each of them: a result set is a
+	// value of its own, what it encodes to must not depend on what was registered later
+	type kept struct {
+		o  *mon.Obj
+		rs *zlint.ResultSet
+	}
+	var keep []kept
+	for _, k := range []corpus.Kind{corpus.Cert, corpus.CRL, corpus.OCSP} {
+		for n, idx := range W.ByKind[k] {
+			if n >= 3 {
+				break
+			}
+			if rs, pv, _ := W.Objs[idx].Lint(g); pv == nil && rs != nil {
+				keep = append(keep, kept{W.Objs[idx], rs})
+			}
+		}
+	}
+	inner := check
+	check = func(when string) {
+		inner(when)
+		for _, kp := range keep {
+			c14RoundTrip(c, kp.rs, "result set of "+kp.o.Name+" produced before the additions, encoded "+when, inputs(kp.o))
+			c.R.Count("kept_result_sets_reencoded", 1)
 		}
 	}
 	check("before any addition")
